@@ -5,7 +5,7 @@
     constraints; no reader, no guards-then-unchecked-reads, no failure outcome.
     The equality is on complete results: the accepted value and the remaining
     input, or the full error list. *)
-From RL Require Import Model.Decode Spec.SpecDecode Proofs.RefineAvp Proofs.RefineDecode.
+From RL Require Import Model.Decode Spec.SpecDecode Proofs.RefineAvp Proofs.RefineDecode Proofs.Framing Proofs.Inert.
 
 Theorem C05_decode_refines_spec : forall o b, bytes_ok b = true ->
   exists x, m_decode o b = Val x /\ obs_of x = s_decode o b.
@@ -18,6 +18,30 @@ Theorem C05_payload_refines_spec : forall t p,
   exists rest, m_decode_avp t p = Val (s_payload t p, rest).
 Proof. exact decode_avp_refines. Qed.
 
+(** Nothing outside the fields the specification names influences the result. *)
+Theorem C05_avp_header_bits_inert : forall o1 o1' rest,
+  o1 / 64 = o1' / 64 -> N.testbit o1 1 = N.testbit o1' 1 ->
+  rec_length (o1 :: rest) = rec_length (o1' :: rest) /\ s_record (o1 :: rest) = s_record (o1' :: rest).
+Proof. exact avp_header_bits_inert. Qed.
+
+Theorem C05_short_tail_ignored : forall rs tail, forallb well_delimited rs = true -> len tail < 6 ->
+  s_avps (concat rs ++ tail) = (map s_record rs, tail).
+Proof. exact short_tail_ignored. Qed.
+
+Theorem C05_surplus_ignored : forall t sh p extra, shape_of t = Some sh -> fixed_size sh = Some (len p) ->
+  s_payload t (p ++ extra) = s_payload t p.
+Proof. exact surplus_ignored. Qed.
+
+Theorem C05_reserved_octets_inert :
+  (forall a a' b rest, s_payload 32 (a :: b :: rest) = s_payload 32 (a' :: b :: rest)) /\
+  (forall a b a' b' rest, s_payload 34 (a :: b :: rest) = s_payload 34 (a' :: b' :: rest)) /\
+  (forall a b a' b' rest, s_payload 35 (a :: b :: rest) = s_payload 35 (a' :: b' :: rest)).
+Proof. exact (conj reserved_octets_inert_32 (conj reserved_octets_inert_34 reserved_octets_inert_35)). Qed.
+
+Theorem C05_vendor_payload_inert : forall hdr p p', len hdr = 6 -> rec_vendor hdr <> 0 ->
+  s_record (hdr ++ p) = s_record (hdr ++ p').
+Proof. exact vendor_payload_inert. Qed.
+
 (** non-vacuity: a control message with reserved AVP bits set, M clear and surplus payload octets is accepted *)
 Example C05_noncanonical_accepted :
   s_decode strict_opts [19;32;0;23; 0;1;0;2;0;3;0;4; 60;11;0;0;0;0;0;1;9;9;9] =
@@ -28,3 +52,8 @@ Proof. vm_compute. reflexivity. Qed.
 Print Assumptions C05_decode_refines_spec.
 Print Assumptions C05_avps_refine_spec.
 Print Assumptions C05_payload_refines_spec.
+Print Assumptions C05_avp_header_bits_inert.
+Print Assumptions C05_short_tail_ignored.
+Print Assumptions C05_surplus_ignored.
+Print Assumptions C05_reserved_octets_inert.
+Print Assumptions C05_vendor_payload_inert.
